@@ -48,13 +48,13 @@ func TestVerif_Pacing(t *testing.T) {
 	r := vkit.Start(t, "C16", "pacing", "exploration", rule)
 	r.Assume("waits are measured from the end of the failed attempt to the start of the retry in virtual time", "the watermark model uses the revision argument passed to the failed attempt")
 	r.Require("operation_attempts", "failed_attempts", "retry_waits_checked", "watermark_comparisons")
-	run(t, r, vkit.N(500, 30000), true)
+	run(t, r, vkit.N(5000, 100000), true)
 	r.Finish()
 }
 
 func TestVerif_General(t *testing.T) {
 	r := vkit.Start(t, "C16", "general", "exploration", rule)
 	r.Require("operation_attempts", "failed_attempts", "retry_waits_checked")
-	run(t, r, vkit.N(300, 15000), false)
+	run(t, r, vkit.N(3000, 60000), false)
 	r.Finish()
 }
